@@ -32,7 +32,7 @@ func (cc *compCase) nextSite() int { cc.site++; return cc.site }
 // placeholders at the top level of the file
 func genComponentFile(c *core.Ctx, idx int) (compDef, []model.Stmt) {
 	r := c.Rng
-	def := compDef{name: []string{"components/card", "components/box.v2", "ui/panel", "components/list.min"}[idx%4]}
+	def := compDef{name: []string{"components/card", "components/box.v2", "ui/panel", "components/list.min", "components/odd.tw"}[idx%5]}
 	nArgs := r.Intn(3)
 	for a := 0; a < nArgs; a++ {
 		def.args = append(def.args, fmt.Sprintf("p%d", a))
